@@ -238,6 +238,9 @@ type Obligation struct {
 	Raw     string
 	SmtFile string
 	Quantified bool
+	EvalPkg    string        // closed fact: decided by running spec function EvalFn of package EvalPkg (go test on the real code)
+	EvalFn     string
+	PreText    func() string // covers after a call: the same path just before the callee's contract was assumed
 }
 
 // Snapshot builds the query text for a goal: all declarations and assertions so far + the negated goal.
@@ -346,6 +349,25 @@ func Discharge(o *Obligation, outDir string, timeoutSec int, need int) {
 		results = append(results, named{solvers[0], first})
 	}
 	agreeNeeded := need
+	if o.Cover && len(results) == 0 {
+		// Satisfiability under quantified assumptions is rarely decided.  Without them the query is weaker:
+		// "unsat" still proves the full set contradictory, "sat" shows that the quantifier-free part (path
+		// conditions, contracts assumed at calls, allocation facts) is consistent.
+		if qf := stripQuantified(o.Text); qf != o.Text {
+			r := runSolver(ctx, solvers[0], qf, outDir, base+".qf", 4)
+			if r.status == "sat" {
+				results = append(results, named{solvers[0], solveResult{"sat", "quantifier-free part satisfiable", r.ms}})
+			} else if r.status == "unsat" {
+				results = append(results, named{solvers[0], r})
+			}
+		}
+		if len(results) == 0 && o.PreText != nil {
+			o.Status = "unknown"
+			o.Raw = "not decided"
+			o.TimeMs = time.Since(t0).Milliseconds()
+			return
+		}
+	}
 	if len(results) < agreeNeeded && !(len(results) == 1 && results[0].r.status == "sat" && !o.Cover) {
 		pending := 0
 		for i, s := range solvers {
@@ -397,6 +419,18 @@ func Discharge(o *Obligation, outDir string, timeoutSec int, need int) {
 	case o.Cover:
 		if verdict == "sat" {
 			o.Status = "covered"
+		} else if o.PreText != nil {
+			// contradiction after a call: the callee's contract is only to blame if the path was reachable before
+			pre := runSolver(context.Background(), solvers[0], o.PreText(), outDir, base+".pre", timeoutSec)
+			switch pre.status {
+			case "sat":
+				o.Status = "vacuous"
+			case "unsat":
+				o.Status = "covered"
+				o.Raw = "path unreachable before the call as well"
+			default:
+				o.Status = "unknown"
+			}
 		} else {
 			o.Status = "vacuous"
 		}
@@ -505,4 +539,18 @@ func DischargeAll(obls []*Obligation, outDir string, timeoutSec, need, workers i
 	}
 	close(ch)
 	wg.Wait()
+}
+
+
+// stripQuantified removes the assertions that contain a quantifier.
+func stripQuantified(text string) string {
+	lines := strings.Split(text, "\n")
+	out := lines[:0:0]
+	for _, l := range lines {
+		if strings.HasPrefix(l, "(assert ") && (strings.Contains(l, "(forall ") || strings.Contains(l, "(exists ")) {
+			continue
+		}
+		out = append(out, l)
+	}
+	return strings.Join(out, "\n")
 }
